@@ -45,6 +45,21 @@ def programs(tier):
                                           "cancel": cancel, "limiter": lim, "shield_caller": shield,
                                           "label": f"calls={combo} total={total} abandon={abandon} "
                                                    f"cancel={cancel} limiter={lim} shield={shield}"})
+    progs.extend(shield_inner_programs(tier))
+    return progs
+
+
+def shield_inner_programs(tier):
+    """The call sits in a shielded scope *below* the scope that gets cancelled: neither the
+    caller nor from_thread.check_cancelled() in its worker may see that cancellation."""
+    progs = []
+    for combo in ([("check",), ("gate",)] if tier == "quick"
+                  else [("check",), ("gate",), ("check", "gate"), ("cb_async",)]):
+        for abandon in (False, True):
+            progs.append({"custom": "mc.families.c14_threads:build", "calls": list(combo),
+                          "total": 2, "abandon": abandon, "cancel": 0, "limiter": "explicit",
+                          "shield_caller": False, "shield_inner": True,
+                          "label": f"calls={combo} abandon={abandon} cancel=0 inner shield"})
     return progs
 
 
@@ -137,8 +152,9 @@ def build(world, program):
                 w.objs[f"scope{i}"] = sc
                 log("call", i)
                 try:
-                    r = await to_thread.run_sync(thread_fn, i, kind, limiter=limiter_arg,
-                                                 abandon_on_cancel=program["abandon"])
+                    with anyio.CancelScope(shield=bool(program.get("shield_inner"))):
+                        r = await to_thread.run_sync(thread_fn, i, kind, limiter=limiter_arg,
+                                                     abandon_on_cancel=program["abandon"])
                     log("result", i, "ok", [repr(x) if isinstance(x, BaseException) else x
                                             for x in r] if isinstance(r, tuple) else repr(r))
                 except BaseException as e:
@@ -217,7 +233,10 @@ def check(program, ex):
                 if kind != "raise" or out[1] != f"T{i}":
                     v.append(f"call {i} ({kind}) raised foreign exception {out}")
             elif out[0] == "cancel":
-                if not cancel_run or program["cancel"] != i:
+                if program.get("shield_inner"):
+                    v.append(f"call {i}: run_sync inside a shielded scope ended with a "
+                             f"cancellation ({out}) - only scopes outside the shield were cancelled")
+                elif not cancel_run or program["cancel"] != i:
                     v.append(f"call {i} was cancelled although nobody cancelled its scope")
                 elif not abandon and i in started and kind not in ("check", "cb_async"):
                     # ("check" and "cb_async" functions themselves end with the cancellation
@@ -228,7 +247,11 @@ def check(program, ex):
                 v.append(f"call {i} ({kind}) ended with {out}")
         if kind == "check":
             silent = [e for e in log if e[2] == "check_cancelled_silent" and e[3] == i]
-            if silent:
+            if program.get("shield_inner"):
+                if any(e[2] == "check_cancelled_raised" and e[3] == i for e in log):
+                    v.append(f"call {i}: from_thread.check_cancelled() raised although the call "
+                             f"sits in a shielded scope and only an outer scope was cancelled")
+            elif silent:
                 v.append(f"call {i}: from_thread.check_cancelled() did not raise after the "
                          f"caller's scope was cancelled")
     fin = [e for e in log if e[2] == "final"]
